@@ -95,6 +95,24 @@ def same(a, b):
     return a.shape == b.shape and a.dtype == b.dtype and a.tobytes() == b.tobytes()
 
 
+_ELLS = []
+
+
+def same_name_ellipsoids(ell):
+    """tags of the ellipsoid argument: 0 = GRS80, 1 = another ellipsoid *of the same name* (a user redefining a name: other
+    axis and flattening — equal coordinates on the two must not share a cache entry), 2 = WGS84, 3 = sphere.  Creating an
+    Ellipsoid registers its name: the registry is put back."""
+    if not _ELLS:
+        reg = getattr(ell, "_ELLIPSOIDS", None)
+        snap = dict(reg) if isinstance(reg, dict) else None
+        other = ell.Ellipsoid("GRS80", a=6_377_397.155, f_inv=299.152_812_8, description="GRS80 redefined (Bessel 1841 figures)")
+        if snap is not None:
+            reg.clear()
+            reg.update(snap)
+        _ELLS.extend([ell.GRS80, other, ell.WGS84, ell.sphere if hasattr(ell, "sphere") else ell.WGS72])
+    return list(_ELLS)
+
+
 class GroupRaw:
     """one cached function on plain arrays"""
 
@@ -102,7 +120,7 @@ class GroupRaw:
         tr, rot, ell, nputil, T, Time, position = mods
         self.name = name
         self.kind = "xyz" if name == "trs2llh" else "llh" if name == "llh2trs" else "ang"
-        self.ells = [ell.GRS80, ell.WGS84, ell.sphere] if hasattr(ell, "sphere") else [ell.GRS80, ell.WGS84, ell.WGS72]
+        self.ells = same_name_ellipsoids(ell)
         self.nputil = nputil
         if name in ("trs2llh", "llh2trs"):
             self.pub = getattr(tr, name)
@@ -113,7 +131,7 @@ class GroupRaw:
             self.cached = self.pub.__wrapped__
             self.raw = self.cached.__wrapped__
         self.shapes = SHAPES if self.kind != "ang" else ANG_SHAPES
-        self.ntags = 3 if self.kind != "ang" else 1
+        self.ntags = len(self.ells) if self.kind != "ang" else 1
 
     def make(self, v, sh, tag):
         shape = self.shapes[sh]
@@ -587,9 +605,10 @@ def run_obj_history(w: ObjWorld, ops, rng_state=None):
                 last = len(w.objs) - 1
                 obs.append(w.observe(r) + (None if getattr(r, "other", None) is None else len(r.other),))
             elif kind == "writeres":
+                # a write into a conversion that was handed out: the source must convert anew (3693fe8 / 9ad3ce5), nothing is
+                # excluded from the later reads
                 r = getattr(o, arg)
                 r[...] = 12345.0
-                tainted.add((tgt, arg))
                 obs.append(("wrote",))
             elif kind == "twrite":
                 r = getattr(o, arg)
@@ -992,14 +1011,14 @@ def run(ctx: Ctx):
     ctx.trusted += ["translator/extract_cache.py (AST facts about HashArray, hashable, the public wrappers, TimeBase.__eq__/_to_scale)",
                     "functools.lru_cache behaves as an LRU map keyed by hash and __eq__ of the arguments (modelled, validated through cache_info)",
                     "NumPy view/copy semantics of asarray/view/.copy() are modelled (which buffers alias), validated by the write-into-result steps"]
-    ctx.assumptions += ["writing into an object's own converted result (p.llh[...] = x) is allowed to show up in later reads of that same object's "
-                        "cache until it is invalidated; only effects on *other* objects are checked (statement: 'for other objects')",
+    ctx.assumptions += ["a 2-d PosVel array hands out .pos / .vel as copies it keeps in its own cache: writing into such a copy is not seen by the "
+                        "PosVel array (the only remaining case of 'writing into an object's own cached result'; conversions are covered)",
                         "only item assignment (__setitem__, any key) and attribute assignment count as changes of a position; the other in-place "
                         "routes of NumPy (out=, np.copyto, .fill, .sort, .flat, .put, writes through .val / np.asarray(p) / the caller's own array) "
                         "are pinned route by route in part E and recorded as findings where they leave stale values",
                         "part D compares a history with early reads against the same history without them (exactly) and against freshly built "
-                        "twins (1e-9); reads of the source after writing into an object it holds in its own cache (its conversion, .pos, .vel) "
-                        "are not compared (first assumption)"]
+                        "twins (1e-9); reads of the source after writing into the .pos / .vel it holds in its own cache are not compared (first "
+                        "assumption)"]
     L = 3 if ctx.thorough else 2
     groups = [GroupRaw(n, mods) for n in ("trs2llh", "llh2trs", "enu2trs", "trs2enu")]
     gt = GroupTime(mods)
@@ -1164,6 +1183,16 @@ def run(ctx: Ctx):
             if ok:
                 jobsC.append((h, "exhaustive"))
                 n_exc += 1
+    # an object that depends on another one for two reasons at once — it is a view of its memory *and* has it attached as
+    # `other` — and loses one of them: every order of attaching the source / another array / nothing to a view V of a,
+    # reading, and item assignment to a or V (V made by __getitem__ or by NumPy itself); the reads at the end must be current
+    back_alpha = ["setother:2:0", "setother:2:1", "setother:2:-", "readconv:2", "setitem:0:0:X", "setitem:2:1:X"]
+    views = ["view:0:0,1,2", "viewn:0:0", "viewn:0:1", "viewn:0:2", "viewn:0:3", "viewn:0:4", "viewn:0:5"]
+    for vw in (views if ctx.thorough else [views[0], views[1], rng.choice(views[2:])]):
+        for seq in itertools.product(back_alpha, repeat=4):
+            jobsC.append((["create:1,2,3", "create:5,6,7", vw] + [o.replace(":X", f":{8 + i % 4}") for i, o in enumerate(seq)]
+                          + ["readconv:2", "readconv:0", "readder:2"], "view-and-attachment"))
+            n_exc += 1
     ctx.extra["exhaustive_object_histories"] = n_exc
     for _ in range(ctx.budget(250, 8000)):
         jobsC.append((gen_obj_history(rng, rng.randint(4, 30)), "random"))
@@ -1178,6 +1207,8 @@ def run(ctx: Ctx):
     ctx.extra["D1_histories"], ctx.extra["D2_histories"] = len(jobs1), len(jobs2)
     # ---------------- part E: the other in-place routes NumPy offers (pinned outcome per route)
     ctx.extra["E_routes"] = c08_hist.run_routes(ctx, mods)
+    # ---------------- part G: results of time objects are protected or private
+    ctx.extra["G_time_results"] = c08_hist.run_time_results(ctx, mods)
     # ---------------- part F: cached functions and objects on one memory (the constructor keeps the caller's array)
     jobsF = [ctx.rng.randrange(2 ** 31) for _ in range(ctx.budget(8, 64))]
 
